@@ -806,28 +806,40 @@ pub fn embedded_frame_route(after: &Image) -> &'static str {
     "via-other-route"
 }
 
-/// Where the documented frame reader (see `embedded_frame_route`) stops on this image: (file name, offset) of the
-/// first all-zero frame header, or the end of the last WAL file.
+/// Where the documented frame reader (see `embedded_frame_route`) stops on this image, i.e. where the writer that
+/// takes over from it resumes: the first all-zero frame header; or, when the walk runs off the end of the last
+/// file, the in-block position it had reached in the last block (the header at which it gave the block up, or
+/// the end of the last frame it stepped over).
 pub fn documented_end_of_log(image: &Image) -> Option<(String, usize)> {
     let files = crate::walparse::wal_files(image);
+    let mut last: Option<(String, usize)> = None;
     for (name, data) in &files {
         for b in 0..data.len() / BLOCK {
             let block = &data[b * BLOCK..(b + 1) * BLOCK];
             let mut c = 0usize;
-            while BLOCK - c >= HDR {
-                let hdr = &block[c..c + HDR];
-                if hdr.iter().all(|&x| x == 0) {
-                    return Some((name.clone(), b * BLOCK + c));
-                }
-                let len = u16::from_le_bytes(hdr[4..6].try_into().unwrap()) as usize;
-                if !(1..=4).contains(&hdr[6]) || c + HDR + len > BLOCK {
+            loop {
+                last = Some((name.clone(), b * BLOCK + c));
+                if BLOCK - c < HDR {
                     break;
                 }
-                c += HDR + len;
+                let hdr = &block[c..c + HDR];
+                if hdr.iter().all(|&x| x == 0) {
+                    return last;
+                }
+                if !(1..=4).contains(&hdr[6]) {
+                    break;
+                }
+                let len = u16::from_le_bytes(hdr[4..6].try_into().unwrap()) as usize;
+                c += HDR;
+                if c + len > BLOCK {
+                    last = Some((name.clone(), b * BLOCK + c));
+                    break;
+                }
+                c += len;
             }
         }
     }
-    files.last().map(|(n, d)| (n.clone(), d.len()))
+    last
 }
 
 /// The stale-tail finding (K2) presupposes that the writer resumed where the documented reader stops on the damaged
